@@ -456,6 +456,20 @@ pub mod verif_hook {
     pub static YIELD: RefCell<Option<Box<dyn FnMut(&'static str)>>> = RefCell::new(None);
   }
 
+  /// Called by `MutArc` right before it locks: the address of the mutex.
+  pub fn lock_point(addr: usize) {
+    LOCKS.with(|l| {
+      if let Some(v) = l.borrow_mut().as_mut() {
+        v.push(addr);
+      }
+    });
+  }
+
+  thread_local! {
+    /// the mutexes this thread has locked, in order, while recording is on
+    pub static LOCKS: RefCell<Option<Vec<usize>>> = RefCell::new(None);
+  }
+
   /// A point at which another thread could be scheduled: the harness plays
   /// that other thread's step from here.
   pub fn yield_point(name: &'static str) {
